@@ -42,9 +42,11 @@ def closures_of(ctx, funcs):
             kind, callee = prog.resolve_callee(t['func'].get('fn'))
             if kind != 'local' or callee in out or callee in entry:
                 continue
-            if callee.startswith('<') and ' as std::' in callee:
+            if callee.startswith('<') and (' as std::' in callee or ' as core::' in callee):
                 continue      # derived / std trait impls on crate types (Clone, PartialEq, Default ...)
-            if callee.startswith('screen::') or callee.startswith('<screen::'):
+            if callee.startswith('screen::') or callee.startswith('<screen::') or (callee.startswith('<') and ' as screen::' in callee):
+                # (the last form: a private trait of the screen module implemented for a std type,
+                # e.g. `impl RowMap for HashMap<u32, CharOpts>`)
                 out.add(callee)
                 work.append(callee)
     return out
@@ -76,9 +78,13 @@ def run_c10(ctx, chk):
             sem = semantic_loop_range(sr, disp, f, h)
             if ht['k'] == 'call' and ((ht['func'].get('fn') or {}).get('path', '')).endswith('::next'):
                 rng = loop_range(ctx, sr['engine'], f, h)
+                ity = ht['args'][0]['place']['ty']
                 if sem is not None:
                     rng = sem
-                ranges.append((f, rng, ht['args'][0]['place']['ty']))
+                    rl_ = getattr(sr['engine'], 'rangelike', {})
+                    if any(v_ and k_ in ity for k_, v_ in rl_.items()):
+                        ity = 'std::ops::Range<u32> (as %s, whose next() is a range\'s)' % ity
+                ranges.append((f, rng, ity))
             elif sem is not None:
                 # a counting `while` the engine recognised as walking this range upwards
                 ranges.append((f, sem, 'while counting through std::ops::Range<u32>'))
@@ -112,7 +118,8 @@ def run_c10(ctx, chk):
         for (f_, ops_, clos_) in sorted(set(coll_rows)):
             for c in clos_:
                 carried += closure_carried(prog, c)
-    bad = [c for c in carried if not (c[1] == 'std::vec::Vec<std::string::String>' or 'Range<u32>' in c[1])]
+    rl_ = {k_ for k_, v_ in getattr(sr['engine'], 'rangelike', {}).items() if v_}
+    bad = [c for c in carried if not (c[1] == 'std::vec::Vec<std::string::String>' or 'Range<u32>' in c[1] or c[1] in rl_)]
     chk.instance('R-RENDER', short(disp), 'each row is rendered independently of the others', carried is not None and not bad,
                  detail='loop-carried mutable locals of the row loop: %s' % (carried,), span=body.span,
                  what='state other than the result vector survives from one row to the next while rendering: %s' % [(b[0], b[1]) for b in bad])
